@@ -208,6 +208,11 @@ class Server(object):
         app.proto = proto
         if nxt == 1:
             app.state = 'status'
+            sc_cut = self.script.get('status_cut')
+            if sc_cut is not None and app.cut is None:
+                # the fault applies to every status conversation of this run
+                app.cut = sc_cut
+                self._check_cut0(app)
         elif nxt == 2:
             app.state = 'login'
             try:
@@ -444,6 +449,16 @@ class Server(object):
             return item[1], bytes.fromhex(item[2])
         raise ValueError('bad play item %r' % (item,))
 
+    def release(self, app, out_threshold='same'):
+        """Called from an event: let a script waiting at ['await'] go on,
+        optionally switching the framing mode both ways first."""
+        if out_threshold != 'same':
+            app.out_threshold = out_threshold
+            app.deframer.threshold = out_threshold
+        app.released = True
+        if app.state == 'play':
+            self._run_play(app)
+
     def inject(self, app, item):
         """Send one extra play item now (called from an event)."""
         if app.state in ('play', 'paused') and not app.conn.server_closed:
@@ -460,6 +475,12 @@ class Server(object):
             if op == 'expect':
                 # wait until n serverbound play frames have arrived
                 if app.play_frames < item[1]:
+                    return
+                app.play_pc += 1
+                continue
+            if op == 'await':
+                # hold the script until the harness releases it
+                if not getattr(app, 'released', False):
                     return
                 app.play_pc += 1
                 continue
